@@ -1500,7 +1500,7 @@ func genRisc(repo string, bytesFail map[string]bool) (riscOut, opsOut string, fa
 	}
 
 	// --- functions of risc.go ---------------------------------------------
-	var riscFuncs, opFuncs []*ast.FuncDecl
+	var riscFuncs, opFuncs, forwardBodies []*ast.FuncDecl
 	structs := []*ast.TypeSpec{}
 	for _, f := range p.files {
 		base := filepath.Base(p.fset.Position(f.Pos()).Filename)
@@ -1535,6 +1535,26 @@ func genRisc(repo string, bytesFail map[string]bool) (riscOut, opsOut string, fa
 						opFuncs = append(opFuncs, x)
 					} else if x.Name.Name != "Forward" {
 						die("%s: unexpected method %s in opcodes.go (outside the subset)", p.fset.Position(x.Pos()), x.Name.Name)
+					} else {
+						// `Forward` is not translated: the generated `setForward` ASSUMES "a struct with a forward field stores
+						// the argument, the others ignore it". Check exactly that shape here: the body is empty, or the single
+						// statement `<recv>.forward = <param>`.
+						okShape := len(x.Body.List) == 0
+						if len(x.Body.List) == 1 && len(x.Type.Params.List) == 1 && len(x.Type.Params.List[0].Names) == 1 && len(x.Recv.List[0].Names) == 1 {
+							if as, ok := x.Body.List[0].(*ast.AssignStmt); ok && as.Tok == token.ASSIGN && len(as.Lhs) == 1 && len(as.Rhs) == 1 {
+								sel, ok1 := as.Lhs[0].(*ast.SelectorExpr)
+								rhs, ok2 := as.Rhs[0].(*ast.Ident)
+								if ok1 && ok2 && sel.Sel.Name == "forward" && rhs.Name == x.Type.Params.List[0].Names[0].Name {
+									if rv, ok := sel.X.(*ast.Ident); ok && rv.Name == x.Recv.List[0].Names[0].Name {
+										okShape = true
+									}
+								}
+							}
+						}
+						if !okShape {
+							die("%s: method Forward is not `op.forward = forward` / empty (outside the subset: setForward assumes it)", p.fset.Position(x.Pos()))
+						}
+						forwardBodies = append(forwardBodies, x)
 					}
 				}
 			case *ast.GenDecl:
@@ -1710,6 +1730,7 @@ func genRisc(repo string, bytesFail map[string]bool) (riscOut, opsOut string, fa
 		}
 	}
 	facts["opcodes_without_forward_field"] = noFwd
+	facts["forward_methods_checked"] = len(forwardBodies)
 	// ofDump: rebuild an instruction from the field dump the Go harness prints (fmt %+v)
 	os_.WriteString("\n/-- rebuild an instruction from `name` and its `field=value` dump (driver use only) -/\ndef ofDump (name : String) (get : String → Option String) (fwd : Forward) : Option Instr :=\n")
 	os_.WriteString("  let reg (f : String) : Option Reg := (get f).bind String.toNat?\n  let word (f : String) : Option Word := ((get f).bind String.toInt?).map (BitVec.ofInt 32)\n  let str (f : String) : Option String := get f\n")
